@@ -122,8 +122,9 @@ theorem relistsAfter_of_backoff {w w' : World} (hph : w'.phase = .backoff) (ho :
 
 /-! ### a pending watch request never survives a noticed pause -/
 
-/-- while a watch request is pending, the pause-waiter has not fired (it would have cancelled it) -/
-def ConnFresh (w : World) : Prop := w.phase = .connecting → w.pauseSeen = false
+/-- while a watch request is pending or its response is open, the pause-waiter has not fired (it would
+    have cancelled the request / closed the response) -/
+def ConnFresh (w : World) : Prop := (w.phase = .connecting ∨ w.phase = .streaming) → w.pauseSeen = false
 
 theorem connFresh_init : ConnFresh init := by simp [ConnFresh, init]
 
@@ -170,5 +171,49 @@ theorem watchAttempt_step_quiet {w : World} (hq : Quiet w) (hc : ConnFresh w) (a
       (repeat' split) <;> (try cases ‹ReqFail›) <;>
         simp_all [toBackoff, fail, emit, startListing, rewatch, watchAttemptCount_cons, Out.isWatchAttempt] <;>
         (repeat' split) <;> simp_all [emit, watchAttemptCount_cons, Out.isWatchAttempt]
+
+/-- watch events and bookmarks handed to the consumer -/
+def Out.isEvent : Out → Bool
+  | .event _ _ _ => true
+  | .bookmark _ => true
+  | _ => false
+
+def eventCount (os : List Out) : Nat := (os.filter Out.isEvent).length
+
+theorem eventCount_cons (o : Out) (os : List Out) :
+    eventCount (o :: os) = (if o.isEvent then 1 else 0) + eventCount os := by
+  unfold eventCount
+  by_cases h : o.isEvent = true <;> simp [h] <;> omega
+
+theorem eventCount_append_items (xs : List Entry) (past : List Out) :
+    eventCount (xs.map (fun e => Out.item e.key e.rv) ++ past) = eventCount past := by
+  induction xs with
+  | nil => rfl
+  | cons x xs ih => simp [eventCount_cons, Out.isEvent, ih]
+
+/-- in a quiet state no act makes the client yield a watch event or a bookmark -/
+theorem event_step_quiet {w : World} (hq : Quiet w) (hc : ConnFresh w) (a : Act) :
+    eventCount (step w a).outs = eventCount w.outs := by
+  by_cases hr : a = .respond ∧ w.phase = .listing
+  · obtain ⟨rfl, hph⟩ := hr
+    rw [respond_listing_outs w hph]
+    by_cases hs : w.pauseSeen = true
+    · rw [if_pos hs, List.nil_append]
+      show eventCount (Out.listed w.srv :: (itemsBlock w.log ++ w.outs)) = _
+      rw [eventCount_cons, itemsBlock_eq, eventCount_append_items]; simp [Out.isEvent]
+    · rw [if_neg hs]
+      show eventCount (Out.reqWatch w.srv :: (Out.listed w.srv :: (itemsBlock w.log ++ w.outs))) = _
+      rw [eventCount_cons, eventCount_cons, itemsBlock_eq, eventCount_append_items]; simp [Out.isEvent]
+  · unfold Quiet ConnFresh at *
+    cases a <;> simp only [step]
+    case respond =>
+        split
+        · rename_i hph; exact absurd ⟨rfl, hph⟩ hr
+        · (repeat' split) <;> simp [toBackoff, fail, emit, eventCount_cons, Out.isEvent]
+        · rfl
+    all_goals
+      (repeat' split) <;> (try cases ‹ReqFail›) <;>
+        simp_all [toBackoff, fail, emit, startListing, rewatch, eventCount_cons, Out.isEvent] <;>
+        (repeat' split) <;> simp_all [emit, eventCount_cons, Out.isEvent]
 
 end Kopf.C19
